@@ -125,6 +125,21 @@ def run_both(cases, timeout_ms=3000, model_mode="eng"):
             [norm(model.get(str(i))) for i in range(len(cases))], progs)
 
 
+def run_full(cases, timeout_ms=3000):
+    """implementation vs the model compiling the pattern itself (whole pipeline of E)"""
+    hl = [c.hline(i) for i, c in enumerate(cases)]
+    impl = harness(hl, timeout_ms)
+    dl = [c.dline(i, "-", "fullnoopt" if c.mode == "noopt" else "full") for i, c in enumerate(cases)]
+    model = driver(dl)
+    hangs = [i for i in range(len(cases)) if impl.get(str(i)) == "HANG"]
+    if hangs:
+        again = harness([cases[i].hline(i) for i in hangs], 15000, jobs=4)
+        for i in hangs:
+            impl[str(i)] = again.get(str(i), "HANG")
+    return ([norm(impl.get(str(i))) for i in range(len(cases))],
+            [norm(model.get(str(i))) for i in range(len(cases))])
+
+
 # ------------------------------------------------------------------------------------------------
 # pattern ASTs, rendering, generation
 
